@@ -3,12 +3,12 @@ import json
 import os
 import vlib
 
-ACTIONS = ["Init", "Permute", "Recase", "DecTtl", "ExpandWildcard", "Compress", "AltRdata",
+ACTIONS = ["Init", "Permute", "Recase", "DecTtl", "ExpandWildcard", "Compress", "Convert", "AltRdata",
            "AltOwner", "AltClass", "AltSigField", "DropRR", "AddRR", "AltSigBit", "AltKeyBit"]
 
 META = {
     "category": "model_checking",
-    "text": "Rrsig.tla states the RFC 4034 3.1.8.1 signed-data layout declaratively and transcribes the signer (sign_rrset / sign_sorted_rrset_in) and the validator-side reconstruction (RrsigExt::signed_data); TLC checks over owners (apex, wildcard, mixed case), 19 RRsets of 16 types, resolver transforms (permute, recase, TTL decrement, wildcard expansion, compression) and 14 kinds of alteration that transforms preserve and alterations change the signed octets. Every explored state is replayed: the buffer captured by a recording SignRaw key and the buffer rebuilt by signed_data must equal TLC's octets, real ring Ed25519 and ECDSA-P256 signatures must verify exactly when the model says so, key_tag() and DnskeyExt::digest must equal TLC's arithmetic / the evaluated digest term. MC_Signer.tla models sign_sorted_rrset_in as a machine over the caller-owned scratch buffer (backend failure, retry / next RRset with the same buffer, non-empty buffer on entry; every behaviour of 3 / 4 calls replayed with a failing recording key and a failing real key). Recorded runs on random RRsets of 17 types (shared scratch buffer, injected backend failures) are validated by TLC.",
+    "text": "Rrsig.tla states the RFC 4034 3.1.8.1 signed-data layout declaratively and transcribes the signer (sign_rrset / sign_sorted_rrset_in) and the validator-side reconstruction (RrsigExt::signed_data); TLC checks over owners (apex, wildcard, mixed case), 19 RRsets of 16 types, resolver transforms (permute, recase, TTL decrement, wildcard expansion, compression, representation conversions: message round trip + flatten_into, OctetsFrom) and 14 kinds of alteration that transforms preserve and alterations change the signed octets. Every explored state is replayed: the buffer captured by a recording SignRaw key and the buffer rebuilt by signed_data must equal TLC's octets, real ring Ed25519 and ECDSA-P256 signatures must verify exactly when the model says so, the RFC 4035 B.6 RSA/SHA-1 vector must verify over the octets the model builds and fail for the key with any other Algorithm number, key_tag() and DnskeyExt::digest must equal TLC's arithmetic / the evaluated digest term. MC_Signer.tla models sign_sorted_rrset_in as a machine over the caller-owned scratch buffer (backend failure, retry / next RRset with the same buffer, non-empty buffer on entry; every behaviour of 3 / 4 calls replayed with a failing recording key and a failing real key). Recorded runs on random RRsets of 17 types (shared scratch buffer, injected backend failures) are validated by TLC.",
     "note": "Trusted: TLC, ring (signatures, SHA-1/256/384), the transcription of RFC 4034/4035/6840 in Rrsig.tla. Canonical RDATA uses a local per-type table (which embedded names are lower-cased) for the types exercised, not the full Rdata.tla. Signature validity times are not checked by verify_signed_data and not here. Duplicate RRs in a received RRset are outside the model (RFC 4034 6.3 allows rejecting them). RSA keys are not generated (recording key covers RSA algorithm numbers for layout only).",
     "technique": "TLA+ spec (Rrsig.tla) + TLC exhaustive; spec->impl case replay with symbolic-crypto term evaluation; impl->spec trace validation",
     "design_ref": "DESIGN.md §4 C12",
@@ -18,16 +18,14 @@ META = {
 def run(ctx):
     thorough = ctx.tier == "thorough"
     ctx.build("replay_dnssec", "record_dnssec")
-    mc = ctx.tlc("MC_Rrsig", "MC_Rrsig_thorough" if thorough else "MC_Rrsig", workers=8, label="mc")
+    # model checking and case generation are one TLC run (Emit* invariants)
+    cases = os.path.join(ctx.work, "cases.ndjson")
+    mc = ctx.tlc("MC_Rrsig", "MC_Rrsig_thorough" if thorough else "MC_Rrsig", workers=8,
+                 label="mc+gen", cases_to=cases)
     ctx.require_ok(mc, "MC_Rrsig")
     ctx.require_actions(mc, ACTIONS)
     ctx.exhaustive_flags.append(True)
-    # S->I
-    cases = os.path.join(ctx.work, "cases.ndjson")
-    gen = ctx.tlc("MC_Rrsig", "Gen_Rrsig_thorough" if thorough else "Gen_Rrsig", workers=8,
-                  label="gen", coverage=False, cases_to=cases, count=False)
-    ctx.require_ok(gen, "Gen_Rrsig")
-    if gen.ncases < 1000:
+    if mc.ncases < 1000:
         raise vlib.ToolError("generator produced too few cases")
     head = os.path.join(ctx.work, "head.ndjson")
     with open(cases) as f, open(head, "w") as g:
